@@ -138,7 +138,12 @@ func leafID(tok parser.Token) (int, error) {
 	if len(data) < 2 || (data[0] != 'v' && data[0] != 'V') {
 		return 0, fmt.Errorf("leaf value %q", data)
 	}
-	return strconv.Atoi(data[1:])
+	// v<n>, or v<one rune of another class><n>
+	digits := strings.TrimLeftFunc(data[1:], func(r rune) bool { return r < '0' || r > '9' })
+	if len([]rune(data[1:]))-len([]rune(digits)) > 1 {
+		return 0, fmt.Errorf("leaf value %q", data)
+	}
+	return strconv.Atoi(digits)
 }
 
 func fromReal(n *parser.ASTNode) (*T, error) {
